@@ -156,6 +156,6 @@ Section Proofs.
     cbn [enc_cell enc_value].
     assert (W : written_text witness = Ok (xesc witness)) by (apply written_ok; vm_compute; reflexivity).
     rewrite W. eexists. split; [reflexivity|]. finish.
-    do 2 f_equal. vm_compute. reflexivity.
+
   Qed.
 End Proofs.
